@@ -1035,3 +1035,20 @@ func (p *Prog) ensureAnyOf(name string) {
 	}
 	p.registerSpecRegex(name, "(?s)["+cls.String()+"]")
 }
+
+// minLen: length of a shortest word of a named language (runes; a lower bound for bytes).
+func (p *Prog) minLen(lang string) (int, bool) {
+	le, err := p.lemmaEnv([]ast.Expr{ast.NewIdent(lang)})
+	if err != nil {
+		return 0, false
+	}
+	d, err := le.dfa(ast.NewIdent(lang))
+	if err != nil {
+		return 0, false
+	}
+	w, ok := d.shortest()
+	if !ok {
+		return 0, false
+	}
+	return len(w), true
+}
